@@ -124,6 +124,9 @@ def run(ctx):
         ctx.violation("R-C16-DEFAULT", "alias", ("src/lib.rs", 0, "DefaultBuffer"), "DefaultBuffer is not ArrayBuf<8192>: %r" % (al and al["ty"].get("s"),))
     ctx.cov.update({"write_sites": sites, "outcomes": len(outs), "oom_outcomes": n_oom, "failed_write_paths": n_fail})
     ctx.include("C18", "capacity exactly L suffices / below L is an error presupposes that ArrayBuf<N> is an exact bounded vector for every N")
+    ctx.include("C14", "'reports out-of-memory for that frame ... and is immediately ready for the next frame': every push_byte outcome "
+                       "Err(OutOfMemory) must leave the decoder in the fresh state with a cleared buffer (R-C14-BOUNDARY), from whichever "
+                       "write it stems")
     ctx.assumptions = [ASSUMPTIONS[k] for k in ("A1", "A2", "A6")]
     ctx.explanation = (
         "Structural clauses of the buffer-need property decided on every abstract path of push_byte: zeros flushed on success are "
